@@ -29,7 +29,7 @@ import (
 func init() {
 	register(&Engine{
 		Name: "key",
-		Rule: "rt: RSA keys (512/1017/1024[/2048] bits built from seeded primes: modulus top byte 0x80/0xFF/0x01, small and large E, D with top bit on a byte boundary, missing precomputation, 3 primes) and ECDSA keys on P-224/256/384/521 (d=1, d=n-1, leading zero bytes, top bit set, X or Y with a leading zero byte) and byte strings × every builder of kmipclient/register.go × format masks × versions 1.0..1.4 × {ttlv,xml,json} codec path + ttlv wire path; access: formats 0..22,99 × KeyValue shapes × material slot subsets (quick: none/all/single/all-but-one; thorough: all 256) × contents (every standard library blob kind, garbage, all 128 subsets of the optional RSA integers, curve/scalar/point/compression codes), hand-built and after transport in each encoding; lexical: boundary and random big integers and mutated texts; distinct = distinct line",
+		Rule: "rt: RSA keys (512/1017/1024/2048 bits built from seeded primes; thorough: 768, 3072, 4096, four primes: modulus top byte 0x80/0xFF/0x01, public exponents 3..2^31-1, D with top bit on a byte boundary, missing precomputation, 3 primes; exponents of 2^31 and more = keys the standard library rejects, lenient) and ECDSA keys on P-224/256/384/521 (d=1, d=n-1, leading zero bytes, top bit set, X or Y with a leading zero byte) and byte strings × every builder of kmipclient/register.go × format masks × versions 1.0..1.4 (EC builders also 2.0/2.1, codec path) × {ttlv,xml,json} codec path + ttlv wire path, oracle Equal incl. CRT values and a PEM re-parse; hand-built objects (compressed EC points, opaque secret data) through Register().Object; regsweep: all 256 format masks per kind of key at 1.2 and 1.3, the chosen format must be admissible (a requested format of the kind, else its default: no assumption on priorities), `key.reg` asks the model about the builder IN the chosen format; retain: key material kept from one message of a connection (Get responses and extracted bytes on the client, registered objects on the server) compared again after later exchanges on the same connection; outside: unsupported key types must be refused without panic, rsa keys with fewer than two primes observed; access: formats 0..22,99 × KeyValue shapes × material slot subsets (quick: none/all/single/all-but-one; thorough: all 256) × contents (every standard library blob kind, garbage, all 128 subsets of the optional RSA integers, curve/scalar/point/compression codes), hand-built and after transport in each encoding; lexical: boundary and random big integers and mutated texts; distinct = distinct line",
 		Run:  keyRun,
 	})
 }
